@@ -1390,13 +1390,18 @@ class MapV:
         return 'Map{%s}' % ', '.join('%r: %r' % (kv, c.v) for kv, c in self.d.values())
 
 
+def _norm_chars(chars):
+    """characters of a String as python characters whichever way they were produced (literal, pushed char values)"""
+    return tuple(c if isinstance(c, str) else (chr(c.val) if isinstance(c, BV) and c.val is not None else c) for c in chars)
+
+
 def _mkey(v):
     if isinstance(v, BV):
         return ('bv',) + v.key()
     if isinstance(v, Agg) and v.kind == 'tuple':
         return ('tuple',) + tuple(_mkey(x) for x in v.fields)
     if isinstance(v, StrV):
-        return ('str', tuple(v.chars))
+        return ('str', _norm_chars(v.chars))
     if isinstance(v, Opaque):
         return ('op', v.tag)
     raise Unsupported('map key %r' % (v,))
@@ -1868,7 +1873,7 @@ class SetV:
 
 def _skey(v):
     if isinstance(v, StrV):
-        return ('str', tuple(v.chars))
+        return ('str', _norm_chars(v.chars))
     return _mkey(v)
 
 
@@ -2175,7 +2180,7 @@ def m_slice_first(I, a, t, c):
 @model('core::slice::<impl [T]>::contains')
 def m_slice_contains(I, a, t, c):
     x = deref_all(I, a[1])
-    return bv_bool(any(deref_all(I, y) == x for y in _vals(I, a[0])))
+    return bv_bool(any(_deep_eq(I, y, x) for y in _vals(I, a[0])))
 
 
 # ---- output sinks: needletail::parser::write_fasta records (id, seq) on the interpreter
@@ -2328,7 +2333,7 @@ def m_vec_dedup(I, a, t, c):
     v = I.load(a[0])
     out = []
     for x in v.fields:
-        if not out or not (out[-1] == x):
+        if not out or not _deep_eq(I, out[-1], x):
             out.append(x)
     I.store(a[0], Agg('array', 0, out))
     return UNIT
@@ -2337,7 +2342,7 @@ def m_vec_dedup(I, a, t, c):
 @model('std::vec::Vec::contains')
 def m_vec_contains(I, a, t, c):
     x = deref_all(I, a[1])
-    return bv_bool(any(deref_all(I, y) == x for y in I.load(a[0]).fields))
+    return bv_bool(any(_deep_eq(I, y, x) for y in I.load(a[0]).fields))
 
 
 @model('ndarray::arraytraits::<impl std::ops::Index<I> for ndarray::ArrayBase<S, D>>::index',
